@@ -661,13 +661,13 @@ func main() {
 		evalCase(rng.U64())
 	}
 	// round 8: scripts holding literals of different types with colliding printed forms / values (literals.go)
-	for i, n := 0, f.Scale(1500, 40000); i < n; i++ {
+	for i, n := 0, f.Scale(700, 40000); i < n; i++ {
 		litCase(rng.U64())
 	}
 	for i, n := 0, f.Scale(600, 15000); i < n; i++ {
 		evalLitCase(rng.U64())
 	}
-	for i, n := 0, f.Scale(500, 15000); i < n; i++ {
+	for i, n := 0, f.Scale(400, 15000); i < n; i++ {
 		apiLitCase(rng.U64())
 	}
 	maxLen := f.Scale(3, 4)
